@@ -28,7 +28,7 @@ BOUNDS = {
              "NumberOfIntervalsSlicer: x and both range ends symbolic doubles in [0, 100], n_intervals 1..6, both "
              "include_max values; PointsPerIntervalSlicer: vectors of 3-4 symbolic reals in arbitrary order, all "
              "n_points / last_full; dropping / references / min_n_intervals on 4 values",
-    "thorough": "up to 12 intervals, vectors of 5 values",
+    "thorough": "up to 10 intervals (the QF_FP queries for 12 intervals ran into the 150 s cap on a loaded machine and are left outside), vectors of 5 values",
 }
 OUTSIDE = [
     "more intervals than the bound (one query per interval count); widths outside [0.01, 10]; data above 100",
@@ -330,7 +330,7 @@ def h_reuse(h):
 def obligations(tier):
     for kind in ("width", "number", "points"):
         yield ("reuse", h_reuse, {"slicer": kind, "n": 3 if tier == "quick" else 4}, {"max_paths": 20000})
-    Ks = range(1, 7) if tier == "quick" else range(1, 13)
+    Ks = range(1, 7) if tier == "quick" else range(1, 11)
     for K in Ks:
         for ro in (True, False):
             for vr in (("none", "given") if tier == "quick" else ("none", "given", "upper_only")):
